@@ -577,15 +577,36 @@ def check(ctx, cfg_name):
             problems["injection"].append(f"handler {tok} is not reachable from the generated code")
     # ---- pure hand-over: a callee's call is the operand of `return`, nothing wraps or catches it
     callee_names = {n for n, v in g.inject.items() if isinstance(v, (Handler, Closure))}
-    for st in ast.walk(g.fn):
-        if isinstance(st, ast.Assign) and isinstance(st.value, ast.Call) and isinstance(st.value.func, ast.Attribute) and st.value.func.attr == "get":
-            callee_names |= {t.id for t in st.targets if isinstance(t, ast.Name)}
+    # locals that hold a callee: looked up in an injected table (`.get(..)` or a subscript) or copied from a callee name
+    grew = True
+    while grew:
+        grew = False
+        for st in ast.walk(g.fn):
+            if not isinstance(st, ast.Assign):
+                continue
+            v = st.value
+            holds = (
+                (isinstance(v, ast.Call) and isinstance(v.func, ast.Attribute) and v.func.attr == "get")
+                or (isinstance(v, ast.Subscript) and isinstance(v.value, ast.Name) and isinstance(g.inject.get(v.value.id), dict))
+                or (isinstance(v, ast.Name) and v.id in callee_names)
+            )
+            new_names = {t.id for t in st.targets if isinstance(t, ast.Name)} - callee_names
+            if holds and new_names:
+                callee_names |= new_names
+                grew = True
     returned = {id(st.value) for st in ast.walk(g.fn) if isinstance(st, ast.Return) and st.value is not None}
-    for c in ast.walk(g.fn):
-        if isinstance(c, ast.Call) and isinstance(c.func, ast.Name) and c.func.id in callee_names and id(c) not in returned:
+
+    def _callee_calls(root):
+        return [c for c in ast.walk(root) if isinstance(c, ast.Call) and isinstance(c.func, ast.Name) and c.func.id in callee_names]
+
+    for c in _callee_calls(g.fn):
+        if id(c) not in returned:
             problems["pure-handover"].append(f"`{ast.unparse(c)[:60]}` is called but its result is not returned as it is")
-    if any(isinstance(x, (ast.Try, ast.With)) for x in ast.walk(g.fn)):
-        problems["pure-handover"].append("the dispatcher encloses the hand-over in try / with")
+    # a try / with is a problem when a callee runs inside it (a lookup alone under try is not a hand-over)
+    for x in ast.walk(g.fn):
+        if isinstance(x, (ast.Try, ast.With)) and _callee_calls(x):
+            problems["pure-handover"].append("the dispatcher encloses the hand-over in try / with")
+            break
     # ---- result
     r = g.result
     ok = isinstance(r, Record) and ((getattr(r, "kind", "") == "instantiated") or (getattr(r, "kind", "") == "post" and any(isinstance(x, Record) and getattr(x, "kind", "") == "instantiated" for x in list(r.args) + list(r.kwargs.values()))))
